@@ -19,8 +19,9 @@
          attribute field, valid sections make a valid message iff it fits 4096 octets, and
          Update.construct itself (valid iff not longer than 4096 octets, which it never checks);
       6. MP_REACH_NLRI / MP_UNREACH_NLRI of IPv6 unicast, VPNv4/6, labeled unicast v4/v6, IPv4 flow
-         specification (model/YMp.v + YPrefix6 / YVpn / YLu / YFlow4), each under the exact field
-         ranges (boolean guards) with a refuting witness where the code does not enforce the range;
+         specification (model/YMp.v + YPrefix6 / YVpn / YLu / YFlow4); the one field range the code
+         does not enforce (a label stack must not end in label 0) is a boolean guard with a
+         refuting witness;
       7. COMMUNITIES / EXTENDED / LARGE COMMUNITIES built from API text (model/YCommunity.v,
          YExtCom.v, YLargeCom.v).
     Helper lemmas: proof/WalkerProofs.v, WalkerOpen.v, WalkerUpdate.v, WalkerMp.v, WalkerFlow.v,
@@ -415,44 +416,41 @@ Example C08_mp_ipv6_nonvacuous : exists b,
   routes6_ok [(2 ^ 125, 3); (0, 0); (2 ^ 125 + 5, 128)] = true /\ len b = 61 /\ valid_attrs cfg0 b = true.
 Proof. exact reach6u_example. Qed.
 
-(** VPNv4 / VPNv6 ([v6]).  Full statement: false for two reasons, see the refutations below. *)
+(** VPNv4 / VPNv6 ([v6]).  Full statement: false for one reason, see [C08_mp_label0_refuted]. *)
 Definition C08_mp_vpn_valid_statement : Prop := forall c v6 rs,
   (forall asn an ip b, reachvpn_construct v6 asn an ip rs = Ok b -> attr_block c c_ATTR_MpReachNLRI_ID b) /\
   (forall b, unreachvpn_construct v6 rs = Ok (Some b) -> attr_block c c_ATTR_MpUnReachNLRI_ID b).
-(** proved under [vroute_ok] = prefix length <= 32 / 128 and a label stack not ending in label 0
-    ([vroute_wd_ok] = the length only: a withdrawal carries the fixed label 0x800000).
-    For IPv6 netaddr enforces the length; for IPv4 nothing does ([C08_mp_prefix4_length_refuted],
-    finding C08-prefix-length-unchecked); a last label 0 is written without the bottom-of-stack
-    bit ([C08_mp_label0_refuted], known finding C08-label0-no-bos).
-    Any number of routes and labels, every RD type, every address. *)
+(** proved: MP_UNREACH_NLRI without any guard (a withdrawal carries the fixed label 0x800000);
+    MP_REACH_NLRI under [vroute_ok] = the label stack does not end in label 0, which is written
+    without the bottom-of-stack bit (known finding C08-label0-no-bos).  A prefix length above
+    32 / 128 is a construction error in the model as in the code (since fix: a prefix length
+    outside the address size must be an error ...; [C08_mp_prefix_length_is_error]).
+    Any number of routes and labels, every RD type, every address, every prefix length. *)
 Theorem C08_mp_vpn_valid_partial : forall c v6 rs,
-  (forallb (vroute_ok v6) rs = true -> forall asn an ip b,
+  (forallb vroute_ok rs = true -> forall asn an ip b,
      reachvpn_construct v6 asn an ip rs = Ok b -> attr_block c c_ATTR_MpReachNLRI_ID b) /\
-  (forallb (vroute_wd_ok v6) rs = true -> forall b,
-     unreachvpn_construct v6 rs = Ok (Some b) -> attr_block c c_ATTR_MpUnReachNLRI_ID b).
+  (forall b, unreachvpn_construct v6 rs = Ok (Some b) -> attr_block c c_ATTR_MpUnReachNLRI_ID b).
 Proof. exact mp_vpn_valid. Qed.
 Print Assumptions C08_mp_vpn_valid_partial.
 Example C08_mp_vpn_nonvacuous :
   (exists b, reachvpn_construct false 0 0 167772161 ex_vroutes = Ok b /\
-             forallb (vroute_ok false) ex_vroutes = true /\ len b = 68 /\ valid_attrs cfg0 b = true) /\
+             forallb vroute_ok ex_vroutes = true /\ len b = 68 /\ valid_attrs cfg0 b = true) /\
   (exists b, unreachvpn_construct true [mk_vroute [] (RdAs 100 100) (2 ^ 125) 61] = Ok (Some b) /\
-             forallb (vroute_wd_ok true) [mk_vroute [] (RdAs 100 100) (2 ^ 125) 61] = true /\
              valid_attrs cfg0 b = true).
 Proof. exact (conj reachvpn_example unreachvpn_example). Qed.
 
-(** labeled unicast, IPv4 and IPv6: same guards, same refutations *)
+(** labeled unicast, IPv4 and IPv6: the same *)
 Definition C08_mp_lu_valid_statement : Prop := forall c v6 rs,
   (forall ip b, reachlu_construct v6 ip rs = Ok (Some b) -> attr_block c c_ATTR_MpReachNLRI_ID b) /\
   (forall b, unreachlu_construct v6 rs = Ok (Some b) -> attr_block c c_ATTR_MpUnReachNLRI_ID b).
 Theorem C08_mp_lu_valid_partial : forall c v6 rs,
-  (forallb (lroute_ok v6) rs = true -> forall ip b,
+  (forallb lroute_ok rs = true -> forall ip b,
      reachlu_construct v6 ip rs = Ok (Some b) -> attr_block c c_ATTR_MpReachNLRI_ID b) /\
-  (forallb (lroute_wd_ok v6) rs = true -> forall b,
-     unreachlu_construct v6 rs = Ok (Some b) -> attr_block c c_ATTR_MpUnReachNLRI_ID b).
+  (forall b, unreachlu_construct v6 rs = Ok (Some b) -> attr_block c c_ATTR_MpUnReachNLRI_ID b).
 Proof. exact mp_lu_valid. Qed.
 Print Assumptions C08_mp_lu_valid_partial.
 Example C08_mp_lu_nonvacuous : exists b,
-  reachlu_construct true (2 ^ 125 + 1) ex_lroutes = Ok (Some b) /\ forallb (lroute_ok true) ex_lroutes = true /\
+  reachlu_construct true (2 ^ 125 + 1) ex_lroutes = Ok (Some b) /\ forallb lroute_ok ex_lroutes = true /\
   valid_attrs cfg0 b = true.
 Proof. exact reachlu_example. Qed.
 
@@ -466,44 +464,36 @@ Theorem C08_mp_label0_refuted :
 Proof. exact mp_label0_refuted. Qed.
 Print Assumptions C08_mp_label0_refuted.
 
-(** IPv4 flow specification.  Full statement: false, see the refutation. *)
-Definition C08_mp_flow4_valid_statement : Prop := forall c fs,
-  (forall nh b, reachfs_construct nh fs = Ok (Some b) -> attr_block c c_ATTR_MpReachNLRI_ID b) /\
-  (forall b, unreachfs_construct fs = Ok (Some b) -> attr_block c c_ATTR_MpUnReachNLRI_ID b).
-(** proved under [flow_ok]: destination / source prefix length <= 32 (not enforced by the code:
-    [C08_mp_prefix4_length_refuted]) and comparison bits within LT|GT|EQ (all that
-    construct_operator_flag can set).  Every number of rules, components and operators, every
-    operand size, both forms of the rule length. *)
-Theorem C08_mp_flow4_valid_partial : forall c fs, forallb flow_ok fs = true ->
+(** IPv4 flow specification, full strength.  [flow_ok] is the invariant of the abstraction [op]
+    (comparison bits within LT|GT|EQ - all that construct_operator_flag can set from the operator
+    text), not a restriction of the inputs.  Every number of rules, components and operators,
+    every operand size, both forms of the rule length; a prefix length above 32 or an address
+    that is not IPv4 is a construction error. *)
+Theorem C08_mp_flow4_valid : forall c fs, forallb flow_ok fs = true ->
   (forall nh b, reachfs_construct nh fs = Ok (Some b) -> attr_block c c_ATTR_MpReachNLRI_ID b) /\
   (forall b, unreachfs_construct fs = Ok (Some b) -> attr_block c c_ATTR_MpUnReachNLRI_ID b).
 Proof. exact mp_flow4_valid. Qed.
-Print Assumptions C08_mp_flow4_valid_partial.
+Print Assumptions C08_mp_flow4_valid.
 Example C08_mp_flow4_nonvacuous : exists b,
   unreachfs_construct [ex_long_flow; ex_flow] = Ok (Some b) /\ forallb flow_ok [ex_long_flow; ex_flow] = true /\
   len b = 273 /\ valid_attrs cfg0 b = true.
 Proof. exact unreachfs_example. Qed.
 
-(** An IPv4 prefix length above 32 (finding C08-prefix-length-unchecked): NLRI.construct_prefix_v4
-    (VPNv4, labeled unicast) and IPv4FlowSpec.construct_prefix take the length from int(text) and
-    check nothing - the length octet announces more octets than the four that are written.
-    10.0.0.0/40 as VPNv4 / labeled route, announced and withdrawn; 192.96.3.0/33 as flow
-    specification destination, announced and withdrawn. *)
-Theorem C08_mp_prefix4_length_refuted :
-  ((exists b, reachvpn_construct false 0 0 167772161 [mk_vroute [25] (RdAs 100 100) 167772160 40] = Ok b /\
-              valid_attrs cfg0 b = false) /\
-   (exists b, unreachvpn_construct false [mk_vroute [25] (RdAs 100 100) 167772160 40] = Ok (Some b) /\
-              valid_attrs cfg0 b = false) /\
-   (exists b, reachlu_construct false 167772161 [mk_lroute [25] 167772160 40] = Ok (Some b) /\
-              valid_attrs cfg0 b = false) /\
-   (exists b, unreachlu_construct false [mk_lroute [25] 167772160 40] = Ok (Some b) /\
-              valid_attrs cfg0 b = false)) /\
-  (exists b, reachfs_construct None [mk_flow (Some (3227517696, 33)) None []] = Ok (Some b) /\
-             valid_attrs cfg0 b = false) /\
-  (exists b, unreachfs_construct [mk_flow (Some (3227517696, 33)) None []] = Ok (Some b) /\
-             valid_attrs cfg0 b = false).
-Proof. exact mp_prefix4_length_refuted. Qed.
-Print Assumptions C08_mp_prefix4_length_refuted.
+(** the former refutation (C08-prefix-length-unchecked, fixed): 10.0.0.0/40 as a VPNv4 / labeled
+    route, 2000::/129, 192.96.3.0/33 or an IPv6 address as a flow-specification prefix are
+    construction errors now *)
+Example C08_mp_prefix_length_is_error :
+  (reachvpn_construct false 0 0 167772161 [mk_vroute [25] (RdAs 100 100) 167772160 40] = Exc /\
+   unreachvpn_construct false [mk_vroute [25] (RdAs 100 100) 167772160 33] = Exc /\
+   reachvpn_construct true 0 0 1 [mk_vroute [25] (RdAs 100 100) (2 ^ 125) 129] = Exc /\
+   reachlu_construct false 167772161 [mk_lroute [25] 167772160 40] = Exc /\
+   unreachlu_construct false [mk_lroute [25] 167772160 33] = Exc /\
+   reachlu_construct true 1 [mk_lroute [25] (2 ^ 125) 129] = Exc) /\
+  (reachfs_construct None [mk_flow (Some (3227517696, 33)) None []] = Exc /\
+   unreachfs_construct [mk_flow None (Some (3227517696, 255)) []] = Exc /\
+   reachfs_construct None [mk_flow (Some (2 ^ 125, 32)) None []] = Exc).
+Proof. exact (conj prefix_length_is_error flow_prefix_length_is_error). Qed.
+
 (** an UPDATE of ORIGIN, an empty AS_PATH, an IPv6 MP_REACH_NLRI and an IPv4 flow-specification
     MP_UNREACH_NLRI (C08_update_of_blocks applies: the four blocks have different type codes) *)
 Example C08_update_with_mp_nonvacuous : exists r u m,
